@@ -94,7 +94,7 @@ def buildWorlds (ds : List (Decl × List Nat)) : Array (World × ClassSrc) :=
   (ds.foldl step (#[], World.init, 0)).1
 
 def helperD (h : Helper) (s : Stub.Sig) : Stub.Sig :=
-  ⟨helperPrefix h ++ s.params.map (fun p => ⟨p.name, true⟩), s.kw⟩
+  ⟨helperPrefix h ++ helperKeep h (s.params.map (fun p => ⟨p.name, true⟩)), s.kw⟩
 
 def reportD (dflt apd : Bool) (label : String) (w : World) (src : ClassSrc) : Json :=
   let c := build w src
